@@ -300,6 +300,7 @@ def write_evidence(ctx, run, t0, violations, extra_assumptions=()):
         'timing': lean.timing,
         'exhaustive': bool(getattr(run.mod, 'EXHAUSTIVE', {}).get(ctx.tier, False)),
         'known_findings_hit': {k: v[1] for k, v in run.known.items()},
+        'tree': _tree_identity(),
     }
     ev = {
         'property_id': ctx.prop,
@@ -311,7 +312,7 @@ def write_evidence(ctx, run, t0, violations, extra_assumptions=()):
         'wall_s': round(time.time() - t0, 2),
         'violations': violations,
     }
-    if os.path.realpath(str(common.REPO)) == os.path.realpath('/repo'):
+    if os.path.realpath(str(common.REPO)) == os.path.realpath('/repo') and not os.environ.get('PYXVERIF_LEAN_DIR'):
         d = VERIF / 'evidence'
     else:
         # a run against another tree ($PYXTUML_REPO: seeded regressions, scratch mutants) must not overwrite the
@@ -320,6 +321,31 @@ def write_evidence(ctx, run, t0, violations, extra_assumptions=()):
     d.mkdir(parents=True, exist_ok=True)
     (d / ('%s.json' % ctx.prop)).write_text(json.dumps(common.jsonable(ev), indent=1))
     return ev
+
+
+def _tree_identity():
+    """which trees this run looked at (docs/audit-round4.md, finding 8): head commit and dirtiness of the repository under test
+    and of the verification directory, a digest of the environment snapshot, the Lean directory used"""
+    import hashlib
+    import subprocess
+
+    def git(d, *a):
+        try:
+            return subprocess.run(['git', '-C', str(d)] + list(a), stdout=subprocess.PIPE, stderr=subprocess.DEVNULL,
+                                  timeout=20).stdout.decode().strip()
+        except Exception:
+            return ''
+    out = {'repo_path': str(common.REPO), 'repo_head': git(common.REPO, 'rev-parse', 'HEAD'),
+           'repo_dirty': bool(git(common.REPO, 'status', '--porcelain', '--untracked-files=no')),
+           'verif_head': git(VERIF, 'rev-parse', 'HEAD'),
+           'verif_dirty_outside_evidence': bool([l for l in git(VERIF, 'status', '--porcelain', '--untracked-files=no').splitlines()
+                                                 if 'evidence/' not in l and 'seeded/' not in l]),
+           'lean_dir': os.environ.get('PYXVERIF_LEAN_DIR', str(VERIF / 'lean'))}
+    try:
+        out['env_snapshot_sha'] = hashlib.sha256((VERIF / 'translator' / 'env_snapshot.json').read_bytes()).hexdigest()[:16]
+    except Exception:
+        out['env_snapshot_sha'] = ''
+    return out
 
 
 def do_replay(ctx, mod, path):
